@@ -75,6 +75,12 @@ CLAIMED.update({
    technique='Coq proof over R (algebra through the regenerated quantity layer, quadratic-root identity); bit-exact correspondence on controlled runs', ref='6 C15'),
 })
 
+CLAIMED.update({
+ 'C18': dict(text='Machine-checked: a snapshot\'s columns are exactly the requested variables (all recorded ones when none is given), each once, in the fixed order, labelled with the requested units; a filled cell is the interpolation over the instants in seconds of the element\'s recorded samples converted to the requested unit and an empty cell is a variable the element does not record (generic in the arithmetic); over the reals the interpolation returns the recorded converted sample at every recorded instant and the chord of the two neighbouring samples in between; the exported table has the time column in the requested unit and one column per recorded key in dictionary order with one value per recorded instant.',
+   note='Model = coq/Report.v, run on the history gearpy itself recorded (the recorded data is the common input) and compared with gearpy\'s own snapshot DataFrame and re-read CSV: column names, row names, every cell bit for bit, exception classes; histories include self-locking runs whose speed samples are recorded in mixed units, and the requested unit is often the unit of the first sample. scipy interp1d (= numpy.interp for this data) is re-implemented and compared, not verified; pandas only carries the values (CSV re-read with the round-trip float parser). About snapshot as repaired by the D14 fix commit; export of the D13 configuration raises (known finding).',
+   technique='Coq proof (inversion of the report functions; interpolation lemmas over R); bit-exact correspondence on recorded histories', ref='6 C18'),
+})
+
 PENDING = {}
 ALL = ['C%02d' % i for i in range(1, 21)]
 
